@@ -161,6 +161,25 @@ def run(res, tier, seed):
                                        "for RunExpr too)", "input": b.decode("utf-8", "replace"), "input_hex": b.hex(), "flags": fl,
                                "Run": r["run_str"] if r.get("run_ok") else "error", "RunExpr": r.get("expr_str"), "Run_rest": r.get("run_rest")})
                 found += 1
+    # the same text evaluated before under the permissive setting on the same VM: flipping the switches takes effect
+    hist_bad = 0
+    for (b, fl), r in zip(rx_inputs, rx_rows):
+        if r.get("hist_panic") or "{" in str(r.get("run_str")) + str(r.get("expr_str")):
+            continue
+        d1 = (bool(r.get("hist_expr_ok")), r.get("hist_expr_str")) != (bool(r.get("expr_ok")), r.get("expr_str"))
+        d2 = (bool(r.get("hist_run_ok")), r.get("hist_run_str"), r.get("hist_run_rest")) != (bool(r.get("run_ok")), r.get("run_str"), r.get("run_rest"))
+        if d1 or d2:
+            hist_bad += 1
+            if hist_bad <= 2:
+                res.violation({"what": "after the host changed the syntax switches on a VM that had evaluated the same text under the permissive setting, "
+                                       + ("RunExpr" if d1 else "Run") + " does not behave as on a fresh VM with the new setting (a disabled family / statement "
+                                       "syntax must stay disabled for text the VM has compiled before)", "input": b.decode("utf-8", "replace"), "input_hex": b.hex(),
+                               "flags_now": fl, "fresh_vm": {"RunExpr": r.get("expr_str") if r.get("expr_ok") else "error", "Run": r.get("run_str") if r.get("run_ok") else "error",
+                                                             "Run_rest": r.get("run_rest")},
+                               "used_vm": {"RunExpr": r.get("hist_expr_str") if r.get("hist_expr_ok") else "error", "Run": r.get("hist_run_str") if r.get("hist_run_ok") else "error",
+                                           "Run_rest": r.get("hist_run_rest")}})
+                found += 1
+    res.cov["switches_flipped_on_used_vm"] = {"inputs": len(rx_inputs), "disagreements": hist_bad}
     res.cov["runexpr_vs_run"] = {"inputs": len(rx_inputs), "both_evaluated": sum(1 for r in rx_rows if r.get("run_ok") and r.get("expr_ok")), "disagreements": rx_bad}
 
     broken = None
